@@ -50,6 +50,8 @@ struct Shared {
     alive: RefCell<Vec<i64>>,
     /// runs of the spawn_local worker started by the factory closure: [host, incarnation, event index]
     local_worker_runs: RefCell<Vec<Value>>,
+    /// is the tokio IO driver present in this incarnation's runtime? [host, incarnation, event index, "ok"|"disabled"|"nobind"]
+    io_probes: RefCell<Vec<Value>>,
     /// clock reads made by the software factory closure of a host on every (re)start:
     /// [host, incarnation, event index, sim_elapsed, since_epoch]
     factory: RefCell<Vec<Value>>,
@@ -124,6 +126,21 @@ async fn run_ops(w: Who, ops: Vec<Value>) {
 
 async fn software(sh: Rc<Shared>, host: usize, inc: u64, prog: Value, tick: Duration) -> turmoil::Result {
     let _g = Guard::new(&sh, host, inc, 0);
+    if prog["io_probe"].as_bool().unwrap_or(false) {
+        // register a real OS socket with the runtime's IO driver (Builder::enable_tokio_io): panics
+        // "IO is disabled" when the runtime was built without it
+        let r = match std::net::UdpSocket::bind("127.0.0.1:0") {
+            Err(_) => "nobind",
+            Ok(s) => {
+                let _ = s.set_nonblocking(true);
+                match catch_unwind(AssertUnwindSafe(|| tokio::net::UdpSocket::from_std(s))) {
+                    Ok(Ok(_)) => "ok",
+                    _ => "disabled",
+                }
+            }
+        };
+        sh.io_probes.borrow_mut().push(json!([host, inc, sh.cur_ev.get(), r]));
+    }
     let base = Instant::now();
     let w = Who { sh: sh.clone(), host, inc, task: 0, base };
     if prog["ticker"].as_bool().unwrap_or(false) {
@@ -278,6 +295,9 @@ fn run_case(case: &Value) -> Value {
     if cfg["random_order"].as_bool().unwrap_or(false) {
         b.enable_random_order();
     }
+    if cfg["tokio_io"].as_bool().unwrap_or(false) {
+        b.enable_tokio_io();
+    }
     let _ = SystemTime::now();
     let mut sim = b.build();
     let _ = turmoil::verif::take_decisions();
@@ -416,6 +436,7 @@ fn run_case(case: &Value) -> Value {
         "log": *sh.log.borrow(),
         "drops": *sh.drops.borrow(),
         "factory": *sh.factory.borrow(),
+        "io_probes": *sh.io_probes.borrow(),
         "local_worker_runs": *sh.local_worker_runs.borrow(),
         "spawn_worker_runs": SPAWN_WORKER_RUNS.lock().unwrap().iter().map(|d| json!([d.0, d.1, d.2])).collect::<Vec<_>>(),
         "epoch_ns": epoch_ns,
